@@ -124,6 +124,16 @@ CLAIMED = {
         note=COMMON_NOTE + "float32 narrowing of float fields is protobuf's (values are compared after narrowing). Known finding F6 (lock_command never sets has_code) is listed in known_findings.json.",
         tech="machine-checked proof in Coq (locality of disjoint statement blocks; reflection over the translated IR) + exhaustive argument-subset correspondence validating the translator",
         ref="DESIGN.md §5 C15"),
+    "C16": dict(
+        text="Coq theorems about Model/Ble.v (the filters of client_callbacks.py, the outcome table of _send_bluetooth_message_await_response, and every Bluetooth operation of client.py - read, read descriptor, write, write descriptor, notify, pair, unpair, clear cache, disconnect, get services, connect - as a state machine over device messages, time, cancellation and unsubscribe calls): "
+             "C16_first_own_message_decides / C16_result_carries_own_address_and_handle / C16_nothing_own_stays_pending (outcome table), C16_other_address_is_foreign / C16_other_handle_is_foreign / C16_foreign_messages_irrelevant / C16_no_cross_talk / C16_notify_data_own_only (filters), "
+             "C16_foreign_event_ignored (every operation, every phase: a foreign event changes nothing and produces nothing), C16_others_do_not_matter (for EVERY event sequence an operation's observations are the same with or without the other operations), C16_handle_op_refines (the machine computes the table), "
+             "C16_connect_waits_until_deadline / C16_connect_timeout_disconnects_first / C16_after_timeout_only_the_error (unsubscribe, disconnect for that address, then only the time-out error, never a state callback), "
+             "C16_reachable_well_formed / C16_done_means_unsubscribed / C16_finished_is_inert / C16_unsubscribe_is_immediate (nothing left subscribed). BLE request types, the REMOTE_CACHING bit and default time-outs are re-read from the source on every run. "
+             "Tied by concurrent stories on the real APIClient over SimNet under a virtual clock: after every step the frames written, every coroutine's outcome, every callback and the handlers registered on the connection must equal the extracted model's; the property predicate (first own message decides at its own step, connect time-out order, nothing left subscribed) is computed from the story alone and evaluated on the implementation.",
+        note=COMMON_NOTE + "The request/response machinery underneath (registration before the write, handler removal in every ending) is C11's; connection loss during a Bluetooth operation is C09/C11's. Iteration order of handlers of one message type (a Python set) is abstracted: observations are compared per operation. Fixed defect: cancelled start_notify left its data callback registered (repo commit dd00f32).",
+        tech="machine-checked proof in Coq (case analysis of the operation machines, non-interference by induction over event sequences) + model/implementation correspondence on concurrent stories under a virtual clock",
+        ref="DESIGN.md §5 C16"),
     "C18": dict(
         text="Coq theorems about Model/Reconnect.v (labelled transition system of reconnect_logic.py over a client with adversarial attempt outcomes, inductive invariant preserved by all 8 label kinds): C18_one_attempt_at_a_time (for every history at most one client connect call in flight, exactly while CONNECTING/HANDSHAKING), "
              "C18_backoff_spec / C18_backoff_capped (wait after the n-th failure = min(round(1.8^n), 60) s for EVERY n >= 1, the exponent cap is invisible; 60 s after auth errors), C18_failure_schedules_backoff, C18_unexpected_end_retries_at_once, C18_expected_end_cools_down (exactly 5 s), C18_timer_exact, C18_time_respects_timer, "
